@@ -24,8 +24,13 @@ Section C14.
   Variable sgn : list T -> list T.
   Variable infeas : list T -> bool.
 
-  Local Notation wc_seq := (wc_batches T add sub mul abs zero one mone psum m tols f sgn infeas).
-  Local Notation g_seq := (g_batches T add sub div zero delta f sgn infeas).
+  (* The model takes the schedule of TRANSIENT failures of the objective (TimeoutError / RuntimeError, after
+     which Job re-draws the design) as an input tape `fails`, by global call number.  The first group of
+     theorems is about runs without such failures (the empty tape `nof`); the group at the end
+     (C14_*_with_transient_failures) is for EVERY tape in which no job fails five times in a row. *)
+  Local Notation nof := (fun _ : nat => @None (list T)).
+  Local Notation wc_seq := (wc_batches T add sub mul abs zero one mone psum m tols f sgn infeas nof).
+  Local Notation g_seq := (g_batches T add sub div zero delta f sgn infeas nof).
   Local Notation cell s id := (h_get T (s_heap T s) id).
   Local Notation c0 := (c0 T zero).
   Local Notation wcv := (wc_child_vecs T add mul zero one mone tols).
@@ -116,11 +121,12 @@ Section C14.
          d_costs T (cell s c) = f (d_vec T (cell s c)) /\ d_parents T (cell s c) = [id] /\ c <> id))) idss bs.
   Proof. exact (g_forward_difference_thm T add sub div zero delta f sgn infeas). Qed.
 
-  (* The objective is called, per design in order, on the design and then on its n children:
-     1 + n calls per design, i.e. exactly n additional evaluations. *)
+  (* The objective is called on the designs of a batch in order (F14 repair: before their neighbours are
+     built), then on the n children of each design in order; nothing else: 1 + n calls per design, i.e.
+     exactly n additional evaluations. *)
   Theorem C14_gradient_budget : forall bs, Forall (fun b => b <> []) bs ->
     exists s idss, g_seq (init T) bs = Some (s, idss) /\
-    s_log T s = flat_map (flat_map (fun v => v :: gcv v)) bs /\
+    s_log T s = flat_map (fun b => b ++ flat_map gcv b) bs /\
     forall n, Forall (Forall (fun v => length v = n)) bs ->
               length (s_log T s) = (1 + n) * length (concat bs).
   Proof. exact (g_budget_thm T add sub div zero delta f sgn infeas). Qed.
@@ -135,8 +141,8 @@ Section C14.
      already evaluated by a plain Evaluator, never post-processed) and `Old k` (the k-th design
      created so far, submitted AGAIN); wf_hist: within a batch the Old indices are distinct and
      refer to designs of earlier batches.  hist_vecs gives the vector of every item. *)
-  Local Notation wc_run := (wc_hist T add sub mul abs zero one mone psum m tols f sgn infeas).
-  Local Notation g_run := (g_hist T add sub div zero delta f sgn infeas).
+  Local Notation wc_run := (wc_hist T add sub mul abs zero one mone psum m tols f sgn infeas nof).
+  Local Notation g_run := (g_hist T add sub div zero delta f sgn infeas nof).
 
   (* After ANY well-formed history every design of every batch - however often it was submitted -
      has exactly m + 1 costs f(x) ++ [S], S = Python's sum of |f0(x) - f0(child)| over its CURRENT
@@ -198,7 +204,7 @@ Section C14.
     exists s idss, g_run (init T) [] bs = Some (s, idss) /\
     s_inds T s = [] /\ s_todo T s = [] /\ s_proc T s = idss /\
     s_log T s = hist_log T
-                  (fun infos => flat_map (fun p : bool * list T => (if fst p then [snd p] else []) ++ gcv (snd p)) infos) [] bs /\
+                  (fun infos => map snd (filter fst infos) ++ flat_map (fun p : bool * list T => gcv (snd p)) infos) [] bs /\
     Forall2 (Forall2 (fun id v =>
       let d := cell s id in
       d_vec T d = v /\ d_parents T d = [] /\ d_costs T d = f v /\ d_state T d = EVALUATED /\
@@ -210,6 +216,70 @@ Section C14.
       Forall (fun c => d_parents T (cell s c) = [id] /\ d_costs T (cell s c) = f (d_vec T (cell s c)) /\
                        d_state T (cell s c) = EVALUATED /\ c <> id) (d_children T d))) idss (hist_vecs T [] bs).
   Proof. exact (g_hist_thm T add sub div zero delta f sgn infeas). Qed.
+
+  (* ---- runs WITH transient failures of the objective (any failure tape, no five failures in a row) ----
+     d_fail (ghost) = number of failed attempts of Job.evaluate on that individual; d_fail = 0 reads "its own
+     evaluation never failed".  Worst case, after ANY sequence of batches of fresh designs, for every
+     submitted design, x = its FINAL vector (the submitted one if its own evaluation never failed, else the
+     last re-drawn one):
+       - 2n distinct children, linked to it, evaluated once each, costs f(child vector);
+       - every child whose own evaluation never failed is at the stated displacement from x (child 2i:
+         x - tol_i e_i, child 2i+1: x + tol_i e_i; wc_child_vecs, C14_worstcase_children spells it out);
+       - costs = f(x) ++ [S] (m + 1 entries), S = sum of |f0(x) - f0(child)| over the CURRENT children
+         vectors, = features['sensitivity'], m + 2 signed entries;
+       - corollary (last clause): if no child's own evaluation failed, all 2n children are displaced
+         and S is the sum over the 2n displaced vectors: the full statement of the property.
+     A child whose own evaluation failed was re-drawn by Job at a random point (what C06 prescribes for
+     every design): it is then NOT at x -/+ tol e_i and S is computed against it - the open finding F13.
+     The work lists are empty and run() call k processed exactly batch k, as without failures. *)
+  Local Notation wc_seqF fails := (wc_batches T add sub mul abs zero one mone psum m tols f sgn infeas fails).
+  Local Notation g_seqF fails := (g_batches T add sub div zero delta f sgn infeas fails).
+
+  Theorem C14_worstcase_with_transient_failures : forall fails : nat -> option (list T),
+    (forall k, exists j, j < 5 /\ fails (k + j) = None) ->
+    (forall v, length (f v) = m) -> 1 <= m ->
+    forall bs s idss, wc_seqF fails (init T) bs = (s, idss) ->
+    s_inds T s = [] /\ s_todo T s = [] /\ s_proc T s = idss /\
+    Forall2 (Forall2 (fun id v =>
+      let d := cell s id in let x := d_vec T d in
+      let S := psum (map (fun c => abs (sub (c0 (f x)) (c0 (f (d_vec T (cell s c)))))) (d_children T d)) in
+      (d_fail T d = 0 -> x = v) /\ d_parents T d = [] /\ d_state T d = EVALUATED /\
+      NoDup (d_children T d) /\ length (d_children T d) = 2 * length x /\
+      (forall j, j < 2 * length x ->
+         let c := nth j (d_children T d) 0 in
+         (d_fail T (cell s c) = 0 -> d_vec T (cell s c) = nth j (wcv x) []) /\
+         d_parents T (cell s c) = [id] /\ d_children T (cell s c) = [] /\
+         d_costs T (cell s c) = f (d_vec T (cell s c)) /\ d_state T (cell s c) = EVALUATED /\ c <> id) /\
+      d_costs T d = f x ++ [S] /\ length (d_costs T d) = m + 1 /\ d_sens T d = Some S /\
+      d_signed T d = map SV (sgn (f x)) ++ [SV S; SB (infeas x)] /\
+      (Forall (fun c => d_fail T (cell s c) = 0) (d_children T d) ->
+         map (fun c => d_vec T (cell s c)) (d_children T d) = wcv x /\
+         S = psum (map (fun w => abs (sub (c0 (f x)) (c0 (f w)))) (wcv x))))) idss bs.
+  Proof. exact (wc_failures_thm T add sub mul abs zero one mone psum m tols f sgn infeas). Qed.
+
+  (* Gradient evaluator (repaired code, F14; non-empty batches): the design keeps costs f(x) at its FINAL
+     vector x, has n children; every child whose own evaluation never failed is x with delta added on its
+     axis; features['gradient'][i] = (f0(child i) - f0(x)) / delta over the current children; if no child's
+     own evaluation failed it is the forward difference (f0(x + delta e_i) - f0(x)) / delta (F13 otherwise). *)
+  Theorem C14_gradient_with_transient_failures : forall fails : nat -> option (list T),
+    (forall k, exists j, j < 5 /\ fails (k + j) = None) ->
+    forall bs, Forall (fun b => b <> []) bs ->
+    exists s idss, g_seqF fails (init T) bs = Some (s, idss) /\
+    s_inds T s = [] /\ s_todo T s = [] /\ s_proc T s = idss /\
+    Forall2 (Forall2 (fun id v =>
+      let d := cell s id in let x := d_vec T d in
+      (d_fail T d = 0 -> x = v) /\ d_parents T d = [] /\ d_state T d = EVALUATED /\ d_costs T d = f x /\
+      NoDup (d_children T d) /\ length (d_children T d) = length x /\
+      (forall i, i < length x ->
+         let c := nth i (d_children T d) 0 in
+         (d_fail T (cell s c) = 0 -> d_vec T (cell s c) = set_nth T i (add (nth i x zero) delta) x) /\
+         d_parents T (cell s c) = [id] /\ d_costs T (cell s c) = f (d_vec T (cell s c)) /\
+         d_state T (cell s c) = EVALUATED /\ c <> id) /\
+      d_grad T d = Some (map (fun c => div (sub (c0 (f (d_vec T (cell s c)))) (c0 (f x))) delta) (d_children T d)) /\
+      (Forall (fun c => d_fail T (cell s c) = 0) (d_children T d) ->
+         d_grad T d = Some (map (fun i => div (sub (c0 (f (set_nth T i (add (nth i x zero) delta) x))) (c0 (f x))) delta)
+                                (seq 0 (length x)))))) idss bs.
+  Proof. exact (g_failures_thm T add sub div zero delta f sgn infeas). Qed.
 End C14.
 
 Print Assumptions C14_worstcase_children.
@@ -223,6 +293,8 @@ Print Assumptions C14_worstcase_call_budget.
 Print Assumptions C14_gradient_forward_difference.
 Print Assumptions C14_gradient_budget.
 Print Assumptions C14_gradient_no_reprocessing.
+Print Assumptions C14_worstcase_with_transient_failures.
+Print Assumptions C14_gradient_with_transient_failures.
 
 (* non-vacuity: an integer instance (exact arithmetic, sum from the left) with two objectives
    f(x) = [x0^2 + x1; x0 - x1], tolerances [1; 2], three batches; the hypotheses of the theorems
@@ -235,7 +307,7 @@ Definition exbs : list (list (list Z)) := [[[1; 2]; [3; 4]]; [[5; 6]]; [[1; 2]]]
 Example C14_ex_worstcase :
   (forall v, length (exf v) = 2) /\ 1 <= 2 /\
   let '(s, idss) := wc_batches Z Z.add Z.sub Z.mul Z.abs 0%Z 1%Z (-1)%Z exsum 2 [1; 2]%Z exf exsgn
-                               (fun _ => true) (init Z) exbs in
+                               (fun _ => true) (fun _ => None) (init Z) exbs in
   idss = [[0; 1]; [10]; [15]] /\
   map (fun id => d_costs Z (h_get Z (s_heap Z s) id)) (concat idss) =
     [[3; -1; 8]; [13; -1; 16]; [31; -1; 24]; [3; -1; 8]]%Z /\
@@ -247,7 +319,7 @@ Proof. split; [reflexivity|]. split; [auto|]. vm_compute. repeat split. Qed.
 
 Example C14_ex_gradient :
   Forall (fun b : list (list Z) => b <> []) exbs /\
-  match g_batches Z Z.add Z.sub Z.div 0%Z 1%Z exf exsgn (fun _ => true) (init Z) exbs with
+  match g_batches Z Z.add Z.sub Z.div 0%Z 1%Z exf exsgn (fun _ => true) (fun _ => None) (init Z) exbs with
   | Some (s, idss) =>
       idss = [[0; 1]; [6]; [9]] /\
       map (fun id => d_grad Z (h_get Z (s_heap Z s) id)) (concat idss) =
@@ -267,7 +339,7 @@ Definition exhist : list (list (item Z)) :=
 Example C14_ex_resubmission :
   wf_hist Z 0 exhist /\
   let '(s, idss) := wc_hist Z Z.add Z.sub Z.mul Z.abs 0%Z 1%Z (-1)%Z exsum 2 [1; 2]%Z exf exsgn
-                            (fun _ => true) (init Z) [] exhist in
+                            (fun _ => true) (fun _ => None) (init Z) [] exhist in
   idss = [[0]; [0]; [0; 9]; [18; 9]] /\
   map (map (fun id => d_costs Z (h_get Z (s_heap Z s) id))) idss =
     [[[3; -1; 8]]; [[3; -1; 8]]; [[3; -1; 8]; [13; -1; 16]]; [[31; -1; 24]; [13; -1; 16]]]%Z /\
@@ -279,3 +351,47 @@ Proof.
   - cbn. repeat split; repeat constructor; cbn; try lia; intuition discriminate.
   - vm_compute. repeat split.
 Qed.
+
+(* Transient failures (integer instance, one batch with the design [1;2], tolerances [1;2]): call 0 (the
+   design's own evaluation) fails and Job re-draws it to [7;7]; call 4 (its third neighbour, created at
+   [7;5]) fails and Job re-draws that neighbour to [9;9].  The tape satisfies the hypothesis of
+   C14_*_with_transient_failures.  The neighbours are built around the FINAL vector [7;7]; the re-drawn
+   neighbour is the open finding F13: it sits at [9;9] and the extra objective 64 = 13 + 15 + 34 + 2 is
+   computed against it (|56 - 90| = 34 instead of |56 - 54| = 2 for [7;5]). *)
+Definition exfails (k : nat) : option (list Z) :=
+  match k with 0 => Some [7; 7]%Z | 4 => Some [9; 9]%Z | _ => None end.
+
+Example C14_ex_transient_failures :
+  (forall k, exists j, j < 5 /\ exfails (k + j) = None) /\
+  let '(s, idss) := wc_batches Z Z.add Z.sub Z.mul Z.abs 0%Z 1%Z (-1)%Z exsum 2 [1; 2]%Z exf exsgn
+                               (fun _ => true) exfails (init Z) [[[1; 2]]]%Z in
+  let cell id := h_get Z (s_heap Z s) id in
+  idss = [[0]] /\
+  d_vec Z (cell 0) = [7; 7]%Z /\ d_fail Z (cell 0) = 1 /\
+  d_costs Z (cell 0) = [56; 0; 64]%Z /\ d_sens Z (cell 0) = Some 64%Z /\
+  d_children Z (cell 0) = [1; 2; 3; 4] /\
+  map (fun c => d_vec Z (cell c)) [1; 2; 3; 4] = [[6; 7]; [8; 7]; [9; 9]; [7; 9]]%Z /\
+  map (fun c => d_fail Z (cell c)) [1; 2; 3; 4] = [0; 0; 1; 0] /\
+  s_log Z s = [[1; 2]; [7; 7]; [6; 7]; [8; 7]; [7; 5]; [9; 9]; [7; 9]]%Z /\
+  s_proc Z s = idss /\ s_inds Z s = [] /\ s_todo Z s = [].
+Proof.
+  split.
+  - intros k. destruct k as [|[|[|[|[|k]]]]];
+      [exists 1|exists 0|exists 0|exists 0|exists 1|exists 0]; split; try lia; reflexivity.
+  - vm_compute. repeat split.
+Qed.
+
+(* the same tape under the gradient evaluator (delta = 1): neighbours [8;7] and [7;8] around the final
+   vector [7;7]; call 4 does not occur (1 + 1 + 2 calls), so no neighbour is re-drawn and the stored
+   gradient is the forward difference at [7;7] *)
+Example C14_ex_transient_failures_gradient :
+  match g_batches Z Z.add Z.sub Z.div 0%Z 1%Z exf exsgn (fun _ => true) exfails (init Z) [[[1; 2]]]%Z with
+  | Some (s, idss) =>
+      let cell id := h_get Z (s_heap Z s) id in
+      idss = [[0]] /\ d_vec Z (cell 0) = [7; 7]%Z /\ d_fail Z (cell 0) = 1 /\ d_costs Z (cell 0) = [56; 0]%Z /\
+      map (fun c => d_vec Z (cell c)) (d_children Z (cell 0)) = [[8; 7]; [7; 8]]%Z /\
+      d_grad Z (cell 0) = Some [15; 1]%Z /\
+      s_log Z s = [[1; 2]; [7; 7]; [8; 7]; [7; 8]]%Z
+  | None => False
+  end.
+Proof. vm_compute. repeat split. Qed.
